@@ -602,12 +602,12 @@ Ltac norm_app := repeat (progress (cbn [app]; rewrite <- ?app_assoc)).
 (* one whole definition, from the state between two items *)
 Lemma def_run : forall d sec w,
   wf_ldef d = true -> wf_key (d_key d) = true -> wf_value (def_value d) = true ->
-  exists s', steps (N sec w) (map trim (cont_lines (d_ind d ++ def_head d) (d_more d) (d_trail d))) = Ok s'
+  exists s', steps (N sec w) (map trim (cont_lines (d_ind d ++ def_head d) (d_more d) (d_trail d ++ cmt_raw (d_cmt d)))) = Ok s'
              /\ Inv s' sec ((norm_sec sec, d_key d, def_value d) :: map entry w).
 Proof.
   intros d sec w Hd Hk Hv.
   unfold wf_ldef, wf_ldef_g in Hd. repeat (apply andb_true_iff in Hd; destruct Hd as [Hd ?]).
-  rename H into Hmore, H0 into Hft, H1 into Htrail, H2 into Hws2, H3 into Hws1, H4 into Hind.
+  rename H into Hmore, H0 into Hft, H1 into Hcmt, H2 into Htrail, H3 into Hws2, H4 into Hws1, H5 into Hind.
   apply blankb_all_space in Htrail. apply blankb_all_space in Hws2.
   apply blankb_all_space in Hws1. apply blankb_all_space in Hind.
   unfold wf_key in Hk. repeat (apply andb_true_iff in Hk; destruct Hk as [Hk ?]).
@@ -620,25 +620,29 @@ Proof.
   cbn [starts_with] in Hkb.
   assert (Hsplit : forall V, split_eq (((kc :: kt) ++ d_ws1 d) ++ "=" :: V) = Some ((kc :: kt) ++ d_ws1 d, V)).
   { intro V. apply split_eq_app. rewrite forallb_app. rewrite Hkeq. now rewrite noeq_space. }
+  assert (Hex : forall p, all_space p -> all_space (extra p (d_cmt d))).
+  { intros p Hp. destruct (d_cmt d); [exact Hp|reflexivity]. }
   destruct (d_first d) as [|fc ft] eqn:EF.
   - (* empty value: the line is  key ws1 '='  followed by blanks only *)
     destruct (d_more d) as [|? ?] eqn:EM; [|discriminate].
     unfold def_head. rewrite EK, EF.
-    assert (E : (d_ind d ++ (kc :: kt) ++ d_ws1 d ++ "=" :: d_ws2 d ++ []) ++ d_trail d
-                = (d_ind d ++ ((kc :: kt) ++ d_ws1 d ++ ["="])) ++ (d_ws2 d ++ d_trail d)).
+    assert (E : (d_ind d ++ (kc :: kt) ++ d_ws1 d ++ "=" :: d_ws2 d ++ []) ++ d_trail d ++ cmt_raw (d_cmt d)
+                = (d_ind d ++ ((kc :: kt) ++ d_ws1 d ++ ["="])) ++ (d_ws2 d ++ d_trail d) ++ cmt_raw (d_cmt d)).
     { rewrite app_nil_r. rewrite <- !app_assoc. reflexivity. }
     cbn [cont_lines]. rewrite E. clear E.
-    pose proof (conts_run [] (d_ind d) ((kc :: kt) ++ d_ws1 d ++ ["="]) [] sec w (d_ws2 d ++ d_trail d)) as R.
+    pose proof (conts_run [] (d_ind d) ((kc :: kt) ++ d_ws1 d ++ ["="]) [] sec w (d_ws2 d ++ d_trail d) (d_cmt d)) as R.
     cbn [cont_lines] in R. rewrite R; clear R.
     + eexists. split; [reflexivity|]. split; [reflexivity|]. right.
       cbn [st_cw st_buf st_wr]. split; [reflexivity|]. split; [discriminate|].
-      exists ((kc :: kt) ++ d_ws1 d), []. split.
-      * cbn [value_tail flat_map]. rewrite app_nil_r.
-        rewrite <- (Hsplit []). f_equal. rewrite <- app_assoc. reflexivity.
+      exists ((kc :: kt) ++ d_ws1 d), (extra (d_ws2 d ++ d_trail d) (d_cmt d)). split.
+      * cbn [value_tail flat_map].
+        rewrite <- (Hsplit (extra (d_ws2 d ++ d_trail d) (d_cmt d))). f_equal. norm_app. reflexivity.
       * unfold entry. rewrite def_value_eq, EF, EM. cbn [value_tail flat_map].
-        rewrite (trim_pad_r (kc :: kt)) by assumption. reflexivity.
+        rewrite (trim_pad_r (kc :: kt)) by assumption.
+        rewrite trim_all_space by (apply Hex; now apply all_space_app). reflexivity.
     + assumption.
     + now apply all_space_app.
+    + assumption.
     + discriminate.
     + apply (trimmedb_intro kc (kt ++ d_ws1 d ++ ["="]) ((kc :: kt) ++ d_ws1 d) "=").
       * cbn [app]. now rewrite <- app_assoc.
@@ -661,16 +665,17 @@ Proof.
       - eapply Forall_impl; [|exact Htp]. intros a Ha. now apply plain_nocmt. }
     assert (Hne : Forall (fun c => c_text c <> []) (d_more d)).
     { eapply Forall_impl; [|exact Hconts]. intros a [Ha _]. now apply wf_cont_text. }
-    pose proof (conts_run (d_more d) (d_ind d) (def_head d) [] sec w (d_trail d)) as R.
+    pose proof (conts_run (d_more d) (d_ind d) (def_head d) [] sec w (d_trail d) (d_cmt d)) as R.
     rewrite R; clear R.
     + eexists. split; [reflexivity|]. split; [reflexivity|]. right.
       cbn [st_cw st_buf st_wr]. split; [reflexivity|]. split.
       { unfold def_head. rewrite EK. discriminate. }
-      exists ((kc :: kt) ++ d_ws1 d), (d_ws2 d ++ (fc :: ft) ++ value_tail (d_more d)). split.
-      * rewrite <- (Hsplit (d_ws2 d ++ (fc :: ft) ++ value_tail (d_more d))). f_equal.
+      exists ((kc :: kt) ++ d_ws1 d), (d_ws2 d ++ ((fc :: ft) ++ value_tail (d_more d)) ++ extra (d_trail d) (d_cmt d)). split.
+      * rewrite <- (Hsplit (d_ws2 d ++ ((fc :: ft) ++ value_tail (d_more d)) ++ extra (d_trail d) (d_cmt d))). f_equal.
         unfold def_head. rewrite EK, EF. norm_app. reflexivity.
-      * unfold entry. rewrite trim_pad_r by assumption. rewrite trim_pad_l; [reflexivity|assumption|].
-        unfold wf_value in *. assumption.
+      * unfold entry. rewrite trim_pad_r by assumption.
+        rewrite trim_pad; [reflexivity|assumption|now apply Hex|assumption].
+    + assumption.
     + assumption.
     + assumption.
     + unfold def_head. rewrite EK. discriminate.
@@ -722,7 +727,7 @@ Proof.
   { unfold wf_ldef, wf_ldef_g in Hd. repeat (apply andb_true_iff in Hd; destruct Hd as [Hd ?]). assumption. }
   destruct (gap_run _ _ _ _ Hg HI) as [s1 [R1 I1]]. rewrite R1.
   destruct (steps_norm _ _ _ I1) as [w0 [Hw Hs]].
-  destruct (cont_lines_cons (d_ind d ++ def_head d) (d_more d) (d_trail d)) as [L [ls EL]].
+  destruct (cont_lines_cons (d_ind d ++ def_head d) (d_more d) (d_trail d ++ cmt_raw (d_cmt d))) as [L [ls EL]].
   destruct (def_run d sec w0 Hd Hk Hv) as [s2 [R2 I2]].
   rewrite EL in *. cbn [map] in *. rewrite Hs. rewrite R2. exists s2. split; [reflexivity|]. now subst E.
 Qed.
@@ -855,22 +860,31 @@ Proof.
     + apply IH; try assumption. rewrite no_lf_app. now rewrite H2, Hat.
 Qed.
 
+Lemma cmt_no_lf : forall c, wf_cmt c = true -> no_lf (cmt_raw c) = true.
+Proof.
+  intros [[semi t]|] H; [|reflexivity]. unfold wf_cmt in H.
+  repeat (apply andb_true_iff in H; destruct H as [H ?]).
+  unfold no_lf in *. cbn [cmt_raw forallb]. rewrite H. destruct semi; reflexivity.
+Qed.
+
 Lemma def_no_lf : forall d, wf_ldef d = true -> wf_key (d_key d) = true -> wf_value (def_value d) = true ->
   Forall (fun r => no_lf r = true) (def_raws d).
 Proof.
   intros d Hd Hk Hv. unfold def_raws. apply Forall_app.
   unfold wf_ldef, wf_ldef_g in Hd. repeat (apply andb_true_iff in Hd; destruct Hd as [Hd ?]).
-  rename H into Hmore, H0 into Hft, H1 into Htrail, H2 into Hws2, H3 into Hws1, H4 into Hind.
+  rename H into Hmore, H0 into Hft, H1 into Hcmt, H2 into Htrail, H3 into Hws2, H4 into Hws1, H5 into Hind.
   split; [now apply gap_no_lf|].
   unfold wf_key in Hk. repeat (apply andb_true_iff in Hk; destruct Hk as [Hk ?]).
+  rename H1 into Hkp.
   unfold wf_value in Hv. repeat (apply andb_true_iff in Hv; destruct Hv as [Hv ?]).
-  rewrite def_value_eq in *. apply plain_app in H4. destruct H4 as [Hfp Htp].
+  rename H3 into Hvp.
+  rewrite def_value_eq in *. apply plain_app in Hvp. destruct Hvp as [Hfp Htp].
   apply plain_value_tail in Htp.
   apply cont_lines_no_lf.
-  - unfold def_head. rewrite !no_lf_app. rewrite (blankb_no_lf _ Hind), (plain_no_lf _ H1), (blankb_no_lf _ Hws1).
+  - unfold def_head. rewrite !no_lf_app. rewrite (blankb_no_lf _ Hind), (plain_no_lf _ Hkp), (blankb_no_lf _ Hws1).
     cbn [andb]. unfold no_lf at 1. cbn [forallb]. fold (no_lf (d_ws2 d ++ d_first d)).
     rewrite no_lf_app. rewrite (blankb_no_lf _ Hws2), (plain_no_lf _ Hfp). reflexivity.
-  - now apply blankb_no_lf.
+  - rewrite no_lf_app. rewrite (blankb_no_lf _ Htrail). now rewrite cmt_no_lf.
   - apply Forall_and.
     + destruct (d_more d); [constructor|].
       repeat (apply andb_true_iff in Hmore; destruct Hmore as [Hmore ?]). now apply forallb_Forall.
@@ -1368,7 +1382,7 @@ Proof.
   rewrite forallb_map. rewrite forallb_forall in *. intros [k v] Hkv. specialize (H _ Hkv).
   cbn [fst snd] in H. apply andb_true_iff in H. destruct H as [_ H].
   unfold wf_value in H. repeat (apply andb_true_iff in H; destruct H as [H ?]).
-  unfold wf_ldef_g, canon_def. cbn [d_gap d_ind d_ws1 d_ws2 d_trail d_first d_more fst snd forallb].
+  unfold wf_ldef_g, canon_def. cbn [d_gap d_ind d_ws1 d_ws2 d_trail d_cmt d_first d_more fst snd forallb wf_cmt].
   rewrite H. reflexivity.
 Qed.
 
@@ -1458,7 +1472,7 @@ Definition L (x : string) : list ascii := list_ascii_of_string x.
 Definition f34_layout : ldoc :=
   mkLdoc [mkLsec [] [] (L "matchers") []
             [mkLdef [] [] (L "m") [SP] [SP] (L "r.obj == p.obj || r.obj in")
-                    [mkCont [SP] [] [SP; SP] (L "['data2', 'data3']")] []]] [] true.
+                    [mkCont [SP] [] [SP; SP] (L "['data2', 'data3']")] [] None]] [] true.
 
 Lemma continuation_header_refuted :
   exists l, wf_doc (erase l) = true /\ wf_layout_g false l = true /\ wf_layout l = false /\
@@ -1473,7 +1487,7 @@ Qed.
 Definition f35_layout : ldoc :=
   mkLdoc [mkLsec [] [] (L "matchers") []
             [mkLdef [] [] (L "m") [SP] [SP] (L "r.sub == p.sub &&")
-                    [mkCont [SP] [] [SP; SP] (L "r.obj == p.obj")] []]] [] true.
+                    [mkCont [SP] [] [SP; SP] (L "r.obj == p.obj")] [] None]] [] true.
 
 Definition insert_line (k : nat) (x : list ascii) (ls : list (list ascii)) := firstn k ls ++ x :: skipn k ls.
 
@@ -1525,7 +1539,7 @@ Definition parse_chunked (t : list ascii) : result (list (list ascii * list asci
 Definition long_layout : ldoc :=
   mkLdoc [mkLsec [] [] (L "matchers") []
             [mkLdef [] [] (L "m") [SP] [SP] (L "g(r.sub, p.sub) &&")
-                    [mkCont (repeat SP 4100) [] [SP] (L "r.obj == p.obj")] []]] [] false.
+                    [mkCont (repeat SP 4100) [] [SP] (L "r.obj == p.obj")] [] (Some (true, L " remark"))]] [] false.
 
 Lemma long_line_chunking_refuted :
   exists l, wf_ldoc l = true /\ parse_chunked (render l) <> Ok (cfg_doc (erase l)) /\
